@@ -412,8 +412,17 @@ func GenAmmoFile(rng *rand.Rand, format string, maxEntries int, vidBase int) Amm
 			if rng.Intn(4) != 0 {
 				e.Host = "raw" + genToken(rng, 3, "abcdef") + ".example.org"
 			}
+			seenUA := false
 			for k := rng.Intn(4); k > 0; k-- {
-				e.Headers = append(e.Headers, KV{K: headerNames[rng.Intn(len(headerNames))], V: trimHV(genHeaderValue(rng))})
+				kv := KV{K: headerNames[rng.Intn(len(headerNames))], V: trimHV(genHeaderValue(rng))}
+				// net/http sends only the first User-Agent value: repeat other names only
+				if canon(kv.K) == "User-Agent" {
+					if seenUA {
+						continue
+					}
+					seenUA = true
+				}
+				e.Headers = append(e.Headers, kv)
 			}
 			if e.Method != "GET" && e.Method != "HEAD" && e.Method != "OPTIONS" {
 				e.Body = genBody(rng, true)
